@@ -72,8 +72,20 @@ def holds8(t1, t2, cfg, always=False):
         return False
 
 
+def m_path_cache(case):
+    """F9: the input fails in the current process state and passes once the process-global lru_cache of
+    deepdiff.path._path_to_elements (polluted by an earlier, unrelated Delta application) is cleared"""
+    from deepdiff.path import _path_to_elements
+    t1, t2, cfg, _always = c01._inputs(case)
+    if holds8(t1, t2, cfg):
+        return False
+    _path_to_elements.cache_clear()
+    return holds8(t1, t2, cfg)
+
+
 MATCHERS = {"F4": lambda c: c01.m_tuple_container(c, holds8), "KA": lambda c: c01.m_alias(c, holds8),
-            "F7": lambda c: False}   # bidirectional deltas always carry the values
+            "F7": lambda c: False,   # bidirectional deltas always carry the values
+            "F9": m_path_cache}
 THRS = (0, 0.33, 0.9)
 
 
@@ -156,8 +168,6 @@ def one_pair(ctx, t1, t2, cases, corr=True, hyp_cases=None):
                     side = -side
                 ctx.count("back_and_forth_sequences")
             except Exception as e:
-                import traceback, sys
-                sys.stderr.write("BF-TRACE " + repr(t1) + " " + repr(t2) + " step=%r side=%r cur=%r\n" % (step, side, cur) + traceback.format_exc() + "\n")
                 ctx.fail(dict(base_case, observed="raised %s" % type(e).__name__), "back-and-forth sequence raised")
         # --- a directed delta refuses subtraction ---
         try:
